@@ -126,6 +126,29 @@ def build_tables(bd):
         gen_tables.write_if_changed(os.path.join(gdir, "Tables_cpp%s.v" % m), gen_tables.render(d, m))
     return True, ""
 
+# ---------------------------------------------------------------- T3: structure (C19 / C20)
+
+def build_structure(bd):
+    """Run the structural translators (clang JSON AST + noexcept probes) on the current tree and
+    regenerate coq/theories/Gen/Shared.v (C19) and Gen/Steps.v (C20). Returns (ok, message)."""
+    gdir = os.path.join(COQ, "theories", "Gen")
+    os.makedirs(gdir, exist_ok=True)
+    for script, name in (("t3_shared.py", "Shared.v"), ("t3_steps.py", "Steps.v")):
+        cached = os.path.join(bd, name)
+        if not os.path.exists(cached):
+            rc, out, _ = run([sys.executable, os.path.join(VERIF, "harness", script), REPO, "-o", cached + ".tmp"], timeout=600)
+            if rc != 0 or not os.path.exists(cached + ".tmp"):
+                return False, "T3: %s cannot process the tree (rc=%s):\n%s" % (script, rc, out[-3000:])
+            os.replace(cached + ".tmp", cached)
+        with open(cached) as f:
+            content = f.read()
+        dst = os.path.join(gdir, name)
+        old = open(dst).read() if os.path.exists(dst) else None
+        if old != content:
+            with open(dst, "w") as f:
+                f.write(content)
+    return True, ""
+
 # ---------------------------------------------------------------- Coq
 
 def coq_makefile():
